@@ -37,12 +37,13 @@ type dnsAPI interface {
 type nicCtx struct {
 	nic  vh.WireNIC
 	sess *packet.Session
-	conn *vh.RecConn
+	conn *vh.WireConn
 	arp  *arp_spoofer.Handler
 	dns  dnsAPI
 }
 
 type sender struct {
+	wf    string // write-failure class armed right before the action under test: none | temp1 | perm1 | temp2
 	fill  string // "ee" (default) | "zero" | "prev": see call
 	ctx   map[string]*nicCtx
 	tmp   string
@@ -131,12 +132,15 @@ type outcome struct {
 	skipped  string
 }
 
+// clientPort is the UDP source port of the client messages of the running scenario (68 unless the vector says otherwise)
+var clientPort uint16 = 68
+
 func dhcpClientFrame(e *vh.WireEnv, srcIP, dstIP netip.Addr, dstMAC net.HardwareAddr, xid uint32, flags uint16, ci netip.Addr, opts []vh.DHCP4Opt) []byte {
 	msg := vh.DHCP4(1, xid, flags, ci, netip.Addr{}, netip.Addr{}, netip.Addr{}, e.MAC("mac1"), opts)
-	return vh.FrameIP4UDP(e.MAC("mac1"), dstMAC, srcIP, dstIP, 68, 67, msg)
+	return vh.FrameIP4UDP(e.MAC("mac1"), dstMAC, srcIP, dstIP, clientPort, 67, msg)
 }
 
-func (s *sender) newDHCP(c *nicCtx) (*packet.Session, *vh.RecConn, *dhcp4_spoofer.Handler) {
+func (s *sender) newDHCP(c *nicCtx) (*packet.Session, *vh.WireConn, *dhcp4_spoofer.Handler) {
 	sess, conn, err := vh.NewWireSession(c.nic)
 	if err != nil {
 		panic(err)
@@ -204,14 +208,26 @@ func (s *sender) dhcpScenario(c *nicCtx, e *vh.WireEnv, call jmap, rng *rand.Ran
 	}
 	var err error
 	out := outcome{}
+	clientPort = 68
+	if jstr(call, "sp") == "other" {
+		clientPort = uint16(1024 + rng.Intn(60000))
+		if clientPort == 67 || clientPort == 68 {
+			clientPort = 4011
+		}
+	}
+	defer func() { clientPort = 68 }()
+	arm := func() { conn.PlanFor(s.wf) } // the write failures hit the action under test, not the preparation
+	defer conn.Plan()
 	switch f {
 	case "dhcp4.ServerReply":
 		mt, _ := strconv.Atoi(jstr(call, "mt"))
 		switch {
 		case mt == 2:
+			arm()
 			err = deliverDHCP(sess, h, dhcpClientFrame(e, zero, bc, e.MAC("bcast"), xid, 0x8000*uint16(rng.Intn(2)), zero,
 				with(vh.DHCP4Opt{Code: 53, Data: []byte{1}}, vh.DHCP4Opt{Code: 55, Data: []byte{3, 1, 6}})))
 		case mt == 6:
+			arm()
 			err = selectReq(e.IP("lan4"), c.nic.RouterIP)
 			e.Args["arg.yiaddr"] = "0.0.0.0"
 		default:
@@ -219,12 +235,16 @@ func (s *sender) dhcpScenario(c *nicCtx, e *vh.WireEnv, call jmap, rng *rand.Ran
 			if offered, err = discover(); err != nil {
 				break
 			}
+			if jbool(call, "bcast") {
+				arm()
+			}
 			if err = selectReq(offered, c.nic.HostIP); err != nil {
 				break
 			}
 			e.Args["arg.yiaddr"] = offered.String()
 			if !jbool(call, "bcast") { // renewing: unicast request from the leased address
 				conn.Take()
+				arm()
 				err = deliverDHCP(sess, h, dhcpClientFrame(e, offered, c.nic.HostIP, c.nic.HostMAC, rng.Uint32(), 0, offered, with(vh.DHCP4Opt{Code: 53, Data: []byte{3}})))
 				e.Args["arg.xid"] = "any"
 			}
@@ -235,8 +255,9 @@ func (s *sender) dhcpScenario(c *nicCtx, e *vh.WireEnv, call jmap, rng *rand.Ran
 		e.Args["arg.server"], e.Args["arg.offered"] = hex.EncodeToString(sv[:]), hex.EncodeToString(offered[:])
 		msg := vh.DHCP4(2, xid, 0, zero, e.IP("lan4"), netip.Addr{}, netip.Addr{}, e.MAC("mac1"),
 			with(vh.DHCP4Opt{Code: 53, Data: []byte{2}}, vh.DHCP4Opt{Code: 54, Data: sv[:]}, vh.DHCP4Opt{Code: 51, Data: []byte{0, 0, 14, 16}}))
+		arm()
 		err = deliverDHCP(sess, h, vh.FrameIP4UDP(c.nic.RouterMAC, e.MAC("bcast"), c.nic.RouterIP, bc, 67, 68, msg))
-		conn.WaitLen(1, 500*time.Millisecond)
+		conn.Settle(1, 500*time.Millisecond, s.wf != "none")
 		out.primary = func(a *vh.AbsFrame) bool { return a.DHCP != nil && a.DHCP.MsgType == 4 }
 	case "dhcp4.ForgedDeclinePair":
 		// OFFER A (client mac1) and OFFER B (client mac2) from the LAN's DHCP server, delivered through ONE receive
@@ -254,6 +275,7 @@ func (s *sender) dhcpScenario(c *nicCtx, e *vh.WireEnv, call jmap, rng *rand.Ran
 		}
 		fa, fb := mk(e.MAC("mac1"), xid, e.IP("lan4"), cid), mk(e.MAC("mac2"), xid^0x5a5a5a5a, c.nic.RouterIP.Next().Next(), cidB)
 		buf := make([]byte, 0, 2048)
+		arm()
 		prev := runtime.GOMAXPROCS(1)
 		for _, f := range [][]byte{fa, fb} {
 			buf = buf[:len(f)]
@@ -271,7 +293,7 @@ func (s *sender) dhcpScenario(c *nicCtx, e *vh.WireEnv, call jmap, rng *rand.Ran
 			full[i] = 0xEE // the capture buffer moves on
 		}
 		runtime.GOMAXPROCS(prev)
-		conn.WaitLen(2, 500*time.Millisecond)
+		conn.Settle(2, 500*time.Millisecond, s.wf != "none")
 		wantXID := fmt.Sprintf("%08x", xid)
 		out.primary = func(a *vh.AbsFrame) bool {
 			return a.DHCP != nil && a.DHCP.MsgType == 4 && hex.EncodeToString(a.DHCP.XID) == wantXID
@@ -282,8 +304,9 @@ func (s *sender) dhcpScenario(c *nicCtx, e *vh.WireEnv, call jmap, rng *rand.Ran
 			if err = selectReq(offered, c.nic.HostIP); err == nil {
 				conn.Take()
 				e.Args["arg.leased"] = offered.String()
+				arm()
 				err = h.StartHunt(packet.Addr{MAC: e.MAC("mac1"), IP: offered})
-				conn.WaitLen(1, 500*time.Millisecond)
+				conn.Settle(1, 500*time.Millisecond, s.wf != "none")
 			}
 		}
 		out.primary = func(a *vh.AbsFrame) bool { return a.DHCP != nil && a.DHCP.MsgType == 7 }
@@ -312,8 +335,10 @@ func (s *sender) purgeScenario(c *nicCtx, e *vh.WireEnv, call jmap) outcome {
 	}
 	now := time.Now()
 	f.Host.LastSeen = now.Add(-90 * time.Second)
+	conn.PlanFor(s.wf)
+	defer conn.Plan()
 	err = sess.VerifPurge(now)
-	conn.WaitLen(1, time.Second)
+	conn.Settle(1, time.Second, s.wf != "none")
 	time.Sleep(2 * time.Millisecond)
 	return outcome{frames: conn.Take(), err: errText(err)}
 }
@@ -351,6 +376,8 @@ func (s *sender) call(c *nicCtx, e *vh.WireEnv, call jmap, rng *rand.Rand) (out 
 	var err error
 	sess := c.sess
 	c.conn.Take()
+	c.conn.PlanFor(s.wf)
+	defer c.conn.Plan()
 	switch s.fill { // content of the pooled buffers the call is about to take
 	case "zero":
 		fillPool(0)
@@ -376,6 +403,7 @@ func (s *sender) call(c *nicCtx, e *vh.WireEnv, call jmap, rng *rand.Rand) (out 
 			name = strings.Repeat("n", 50) + fmt.Sprintf("-%09d", rng.Intn(1000000000))
 		}
 		e.Args["arg.name"] = hex.EncodeToString([]byte(name))
+		conn.PlanFor(s.wf)
 		err = h.SendDiscoverPacket(e.MAC(jstr(call, "ch")), e.IP(jstr(call, "ci")), xid, name)
 		return outcome{frames: conn.Take(), err: errText(err)}
 	case "ICMP4SendEchoRequest":
@@ -579,8 +607,8 @@ func (s *sender) runVector(v jmap, inst int, seed int64, r *result) {
 		}()
 		return s.call(c, e, call, rng)
 	}
-	// reference pass: the same call with the same concrete arguments on zero-filled pooled buffers
-	s.fill = "zero"
+	// reference pass: the same call with the same concrete arguments on zero-filled pooled buffers, no write failure
+	s.fill, s.wf = "zero", "none"
 	rngA := rand.New(rand.NewSource(seed))
 	eA := vh.NewWireEnv(c.nic, rngA)
 	base := guarded(eA, call, rngA)
@@ -593,8 +621,11 @@ func (s *sender) runVector(v jmap, inst int, seed int64, r *result) {
 			s.fill = "prev"
 		}
 	}
+	if w := jstr(v, "wf"); w != "" {
+		s.wf = w // the first write(s) of the action under test fail; frames that reach the wire are judged as usual
+	}
 	out := guarded(e, call, rng)
-	s.fill = "ee"
+	s.fill, s.wf = "ee", "none"
 	if out.skipped != "" {
 		r.Skipped = out.skipped
 		return
